@@ -237,6 +237,9 @@ fn visit<D: Dom>(sh: &Shared<D>, s: &str, depth: usize, under_closed: bool, st: 
                     sh.rec.add(make_violation::<D>(&cfg.engine, s, at, o, uses_at));
                 } else {
                     local.bump(&format!("other-kind:{}", o.kind.name()), 1);
+                    if std::env::var_os("VERIF_SHOW_OTHER").is_some() {
+                        eprintln!("OTHER-KIND {} [{} {}] input={:?} at={} expected {} / observed {}", o.kind.name(), cfg.engine, D::EV.name(), s, D::show(at), o.expected, o.observed);
+                    }
                 }
             }
         }
